@@ -5,6 +5,7 @@ package main
 import (
 	"go/token"
 	"go/types"
+	"math/big"
 
 	"golang.org/x/tools/go/ssa"
 )
@@ -47,6 +48,70 @@ func init() {
 		return []Val{scalar(types.Typ[types.String], FreshVar("str", IntS))}
 	}
 	trustedSpecs["fmt.Sprint"] = trustedSpecs["fmt.Sprintf"]
+	initTimeSpecs()
+}
+
+// ---- package time: an instant is a signed 64-bit count of nanoseconds since the Unix epoch;
+// the zero Time (year 1) is the distinguished value MinInt64 (it is before every other instant).
+
+var timeZero = BVC(new(big.Int).Lsh(big.NewInt(1), 63), 64)
+
+func timeT() types.Type { return timeType }
+
+var timeType types.Type
+
+func satSub(a, b *Term) *Term {
+	d := BVBin("bvsub", a, b)
+	maxD := BVC(new(big.Int).Sub(new(big.Int).Lsh(big.NewInt(1), 63), big.NewInt(1)), 64)
+	minD := timeZero
+	// signed overflow: a>=0,b<0,d<0 -> max ; a<0,b>=0,d>=0 -> min
+	z := BVI(0, 64)
+	ovfPos := And(BVCmp("bvsge", a, z), BVCmp("bvslt", b, z), BVCmp("bvslt", d, z))
+	ovfNeg := And(BVCmp("bvslt", a, z), BVCmp("bvsge", b, z), BVCmp("bvsge", d, z))
+	r := Ite(ovfPos, maxD, Ite(ovfNeg, minD, d))
+	// zero Time operands: the true distance exceeds the Duration range
+	aZ, bZ := Eq(a, timeZero), Eq(b, timeZero)
+	return Ite(And(aZ, bZ), z, Ite(aZ, minD, Ite(bZ, maxD, r)))
+}
+
+func initTimeSpecs() {
+	ret := func(fn *ssa.Function, t *Term) []Val {
+		return []Val{scalar(fn.Signature.Results().At(0).Type(), t)}
+	}
+	trustedSpecs["(time.Time).Sub"] = func(ex *Exec, fr *Frame, st *State, fn *ssa.Function, args []Val, pos token.Pos) []Val {
+		return ret(fn, satSub(args[0].Term(), args[1].Term()))
+	}
+	trustedSpecs["(time.Time).Add"] = func(ex *Exec, fr *Frame, st *State, fn *ssa.Function, args []Val, pos token.Pos) []Val {
+		return ret(fn, BVBin("bvadd", args[0].Term(), args[1].Term()))
+	}
+	trustedSpecs["(time.Time).Before"] = func(ex *Exec, fr *Frame, st *State, fn *ssa.Function, args []Val, pos token.Pos) []Val {
+		return ret(fn, BVCmp("bvslt", args[0].Term(), args[1].Term()))
+	}
+	trustedSpecs["(time.Time).After"] = func(ex *Exec, fr *Frame, st *State, fn *ssa.Function, args []Val, pos token.Pos) []Val {
+		return ret(fn, BVCmp("bvsgt", args[0].Term(), args[1].Term()))
+	}
+	trustedSpecs["(time.Time).Equal"] = func(ex *Exec, fr *Frame, st *State, fn *ssa.Function, args []Val, pos token.Pos) []Val {
+		return ret(fn, Eq(args[0].Term(), args[1].Term()))
+	}
+	trustedSpecs["(time.Time).IsZero"] = func(ex *Exec, fr *Frame, st *State, fn *ssa.Function, args []Val, pos token.Pos) []Val {
+		return ret(fn, Eq(args[0].Term(), timeZero))
+	}
+	trustedSpecs["(time.Time).UnixNano"] = func(ex *Exec, fr *Frame, st *State, fn *ssa.Function, args []Val, pos token.Pos) []Val {
+		return ret(fn, args[0].Term())
+	}
+	trustedSpecs["time.Now"] = func(ex *Exec, fr *Frame, st *State, fn *ssa.Function, args []Val, pos token.Pos) []Val {
+		t := FreshVar("now", BVS(64))
+		ex.assume(st, And(BVCmp("bvsle", BVI(0, 64), t), BVCmp("bvslt", t, BVI(1<<62, 64))))
+		return ret(fn, t)
+	}
+	trustedSpecs["time.Since"] = func(ex *Exec, fr *Frame, st *State, fn *ssa.Function, args []Val, pos token.Pos) []Val {
+		t := FreshVar("now", BVS(64))
+		ex.assume(st, And(BVCmp("bvsle", BVI(0, 64), t), BVCmp("bvslt", t, BVI(1<<62, 64))))
+		return ret(fn, satSub(t, args[0].Term()))
+	}
+	trustedSpecs["time.Unix"] = func(ex *Exec, fr *Frame, st *State, fn *ssa.Function, args []Val, pos token.Pos) []Val {
+		return ret(fn, BVBin("bvadd", BVBin("bvmul", args[0].Term(), BVI(1000000000, 64)), args[1].Term()))
+	}
 }
 
 // lockEvent updates the ghost lock state: 0 free, -1 write-locked, n>0 read-locked n times.
